@@ -349,3 +349,5 @@ SUBS = [make(t) for t in ("data3D", "force3D", "emg")]
 SUBS.append(Sub("length-grid", run_length_grid, kind="enum", enumerate=enum_length_grid, shards=(8, 16),
                 rule="3 block kinds x frame counts 1 .. 250 000 (EMG: 1 000 000) x wrong lengths one / two frames, one part in 10^5, 10^3, 10^2 off, through add and list assignment; "
                      "finite, enumerated"))
+from ..core import optimised_child_sub  # noqa: E402
+SUBS.append(optimised_child_sub("C16", ["length-grid", "emg", "data3D", "force3D"]))
